@@ -59,6 +59,17 @@ theorem add_pinf_fin (a : α) : add pinf (fin a) = pinf := rfl
 theorem add_ninf_fin (a : α) : add ninf (fin a) = ninf := rfl
 end X
 
+/-- finishing step of a tie after the case analysis: nothing to do when `simp` closed the goal; otherwise the code
+    was rewritten algebraically (e.g. `(s - x) / (s - e)` as `(x - s) / (e - s)`): decide the remaining divisions
+    (`b = 0` is refuted from the order hypotheses) and compare the two quotients as field expressions -/
+macro "tie_close" : tactic => `(tactic| first
+  | done
+  | (simp only [X.div_fin_total, X.mul_fin, X.sub_fin, X.add_fin]
+     split_ifs <;> first
+       | (exfalso; linarith)
+       | (simp only [X.mul_fin]; congr 1; field_simp; ring1)
+       | (simp only [X.mul_fin]; congr 1; field_simp)))
+
 namespace TermTie
 open X Spec
 variable {α : Type} [Field α] [LinearOrder α] [IsStrictOrderedRing α]
@@ -77,12 +88,12 @@ theorem triangle_fin (F : Fn α) (a : X α) (b : α) (c : X α) (h x : α) (ha :
       · simp [h2, hx]
       · subst hx; simp [h2]
       · have hne : c' - b ≠ 0 := by intro h0; apply h2; linarith
-        simp [h2, hx, hx.ne', not_lt.2 hx.le, div_fin _ _ hne]
+        simp [h2, hx, hx.ne', not_lt.2 hx.le, div_fin _ _ hne] <;> tie_close
   · by_cases h1 : x < a'
     · simp [h1]
     · rcases lt_trichotomy x b with hx | hx | hx
       · have hne : b - a' ≠ 0 := by intro h0; apply h1; linarith
-        simp [h1, hx, hx.ne, not_lt.2 hx.le, div_fin _ _ hne]
+        simp [h1, hx, hx.ne, not_lt.2 hx.le, div_fin _ _ hne] <;> tie_close
       · subst hx; simp [h1]
       · simp [h1, hx]
   · by_cases h1 : x < a'
@@ -91,10 +102,10 @@ theorem triangle_fin (F : Fn α) (a : X α) (b : α) (c : X α) (h x : α) (ha :
       · simp [h1, h2]
       · rcases lt_trichotomy x b with hx | hx | hx
         · have hne : b - a' ≠ 0 := by intro h0; apply h1; linarith
-          simp [h1, h2, hx, hx.ne, not_lt.2 hx.le, div_fin _ _ hne]
+          simp [h1, h2, hx, hx.ne, not_lt.2 hx.le, div_fin _ _ hne] <;> tie_close
         · subst hx; simp [h1, h2]
         · have hne : c' - b ≠ 0 := by intro h0; apply h2; linarith
-          simp [h1, h2, hx, hx.ne', not_lt.2 hx.le, div_fin _ _ hne]
+          simp [h1, h2, hx, hx.ne', not_lt.2 hx.le, div_fin _ _ hne] <;> tie_close
 
 theorem trapezoid_fin (F : Fn α) (a : X α) (b c : α) (d : X α) (h x : α) (ha : LeftEnd a b) (hbc : b ≤ c)
     (hd : RightEnd c d) :
@@ -115,14 +126,14 @@ theorem trapezoid_fin (F : Fn α) (a : X α) (b c : α) (d : X α) (h x : α) (h
       · simp [h2, h3]
       · by_cases h4 : c < x
         · have hne : d' - c ≠ 0 := by intro h0; apply h2; linarith
-          simp [h2, h3, h4, not_le.2 h4, div_fin _ _ hne]
+          simp [h2, h3, h4, not_le.2 h4, div_fin _ _ hne] <;> tie_close
         · simp [h2, h3, h4, not_lt.1 h3, not_lt.1 h4]
   · by_cases h1 : x < a'
     · simp [h1]
     · by_cases h3 : x < b
       · have hne : b - a' ≠ 0 := by intro h0; apply h1; linarith
         have h4 : ¬ c < x := by intro h; linarith
-        simp [h1, h3, h4, not_le.2 h3, div_fin _ _ hne]
+        simp [h1, h3, h4, not_le.2 h3, div_fin _ _ hne] <;> tie_close
       · by_cases h4 : c < x
         · simp [h1, h3, h4, not_lt.1 h3]
         · simp [h1, h3, h4, not_lt.1 h3, not_lt.1 h4]
@@ -132,10 +143,10 @@ theorem trapezoid_fin (F : Fn α) (a : X α) (b c : α) (d : X α) (h x : α) (h
       · simp [h1, h2]
       · by_cases h3 : x < b
         · have hne : b - a' ≠ 0 := by intro h0; apply h1; linarith
-          simp [h1, h2, h3, not_le.2 h3, div_fin _ _ hne]
+          simp [h1, h2, h3, not_le.2 h3, div_fin _ _ hne] <;> tie_close
         · by_cases h4 : c < x
           · have hne : d' - c ≠ 0 := by intro h0; apply h2; linarith
-            simp [h1, h2, h3, h4, not_le.2 h4, div_fin _ _ hne]
+            simp [h1, h2, h3, h4, not_le.2 h4, div_fin _ _ hne] <;> tie_close
           · simp [h1, h2, h3, h4, not_lt.1 h3, not_lt.1 h4]
 
 theorem rectangle_fin (F : Fn α) (s e h x : α) :
@@ -172,7 +183,7 @@ theorem ramp_fin (F : Fn α) (s e h x : α) (hse : s ≠ e) :
     by_cases hx1 : x < s
     · by_cases hx2 : e < x
       · have h3 : ¬ s < x := not_lt.2 hx1.le
-        simp [h1, h2, hx1, hx2, h3, div_fin _ _ hd]
+        simp [h1, h2, hx1, hx2, h3, div_fin _ _ hd] <;> tie_close
       · have h3 : ¬ s < x := not_lt.2 hx1.le
         simp [h1, h2, hx1, hx2, h3, not_lt.1 hx2, ofBool]
     · have h3 : ¬ x ≤ e := by intro h; apply hx1; linarith
@@ -194,13 +205,13 @@ theorem concave_fin (F : Fn α) (i e h x : α) (hie : i ≠ e) :
     have h2' : ¬ e < i := not_lt.2 h1.le
     by_cases hx : x < e
     · have hne : 2 * e - i - x ≠ 0 := by intro h0; linarith
-      simp [h1.le, h2, h2', hx, div_fin _ _ hne]
+      simp [h1.le, h2, h2', hx, div_fin _ _ hne] <;> tie_close
     · simp [h1.le, h2, h2', hx]
   · have h2 : ¬ i ≤ e := not_le.2 h1
     by_cases hx : e < x
     · have hne : i - 2 * e + x ≠ 0 := by intro h0; linarith
       have : -(2 * e) + i + x = i - 2 * e + x := by ring
-      simp [h1.le, h1, h2, hx, div_fin _ _ hne, this]
+      simp [h1.le, h1, h2, hx, div_fin _ _ hne, this] <;> tie_close
     · simp [h1.le, h1, h2, hx]
 
 theorem constant_fin (F : Fn α) (k : α) (x : X α) :
